@@ -10,7 +10,7 @@ Lemma init_base input : Base (init_lex input).
 Proof. unfold Base, init_lex. cbn. split; [reflexivity|]. split; [repeat constructor; lia|lia]. Qed.
 
 Lemma next_token_safe fuel : forall lx, safe lx ->
-  match next_token fuel lx with PTok _ lx' => safe lx' | PDeadlock => False | PPanic => False | PHang => True end.
+  match next_token fuel lx with PTok _ lx' => safe lx' | PDeadlock => False | PPanic => False | _ => True end.
 Proof.
   induction fuel as [|f IH]; intros lx [H HB]; destruct lx as [st l q bl]; unfold safe, lok in *; cbn [lx_st] in *.
   - cbn [next_token lx_queue lx_state lx_st]. destruct q; [|split; assumption]. destruct st; try exact I; split; assumption.
@@ -19,7 +19,7 @@ Proof.
                    if l_panic l' then PPanic
                    else if Nat.ltb c_token_queue_cap (List.length (rev (l_out l'))) then PDeadlock
                         else next_token f (mkLexer st' (with_out l' []) (rev (l_out l')) false)) with
-                 | PTok _ lx' => ol (lx_st lx') = 0%nat /\ Base (lx_st lx') | PDeadlock => False | PPanic => False | PHang => True end).
+                 | PTok _ lx' => ol (lx_st lx') = 0%nat /\ Base (lx_st lx') | PDeadlock => False | PPanic => False | _ => True end).
     { intro st0. pose proof (step_emits_few st0 l) as Hb. pose proof (step_base st0 l HB) as HB'.
       destruct (step st0 l) as [st' l']. cbn [snd] in Hb, HB'.
       destruct (l_panic l') eqn:Ep; [destruct HB' as (K & _); congruence|].
@@ -33,9 +33,9 @@ Qed.
 Theorem parse_never_panics input : parse_bytes input <> Crashed PPanic /\ parse_bytes input <> Crashed PDeadlock.
 Proof.
   assert (G : forall c, parse_bytes input = Crashed c -> ~ (c = PPanic \/ c = PDeadlock)).
-  { refine (parse_never_bad safe (fun c => c = PPanic \/ c = PDeadlock) _ _ input _).
-    - intros fuel lx H. pose proof (next_token_safe fuel lx H) as Hn.
-      destruct (next_token fuel lx); try exact Hn; intros [K|K]; try discriminate; contradiction.
+  { refine (parse_never_bad safe (fun c => c = PPanic \/ c = PDeadlock) input _ _ _).
+    - intros lx H. pose proof (next_token_safe (lex_fuel input) lx H) as Hn.
+      destruct (next_token (lex_fuel input) lx); try exact Hn; intros [K|K]; try discriminate; contradiction.
     - intros [K|K]; discriminate.
     - split; [reflexivity|apply init_base]. }
   split; intro K; apply (G _ K); [left|right]; reflexivity.
